@@ -269,7 +269,9 @@ func (g *sgen) newStruct(depth int) *StructT {
 			}
 		}
 		if g.cfg.Aliases && g.r.Chance(25) {
-			f.Alias = fmt.Sprintf("k%d_%d", sn, i)
+			// aliases exercise bytes below '.' (which wrap in the name trie), spaces and upper case
+			pats := []string{"k%d_%d", "k%d_%d", "k-%d-%d", "k %d.%d", "+k%d%d", "k$%d,%d", "K%d_%d", "-%d%d", "k%d-%d"}
+			f.Alias = fmt.Sprintf(pats[g.r.Intn(len(pats))], sn, i)
 		}
 		if g.cfg.Defaults && g.r.Chance(35) && f.T.T != tref.STRUCT && f.T.T != tref.LIST && f.T.T != tref.SET && f.T.T != tref.MAP && !f.T.Bin {
 			f.Default = defaultFor(g.r, f.T)
